@@ -28,7 +28,10 @@ func (c *wsNetConn) Write(b []byte) (n int, err error) {
 }
 
 func (c *wsNetConn) Close() error {
-	panic("unimplemented")
+	// called by websocket.Upgrader.Upgrade() when the handshake fails after hijacking
+	// (data received before the handshake is complete, or write error).
+	// the underlying connection is closed by ServerConn.
+	return nil
 }
 
 func (c *wsNetConn) LocalAddr() net.Addr {
